@@ -67,7 +67,7 @@ class C11(Prop):
             'paths; non-trivial = some #[default(..)] present')
 
     def n(self, tier):
-        return 220 if tier == 'quick' else 3000
+        return 220 if tier == 'quick' else 12000
 
     def cases(self, tier, rng):
         out = []
